@@ -358,6 +358,14 @@ def gen_fuzz(ctx):
         for _ in range(rng.choice([1, 1, 2, 3])):
             d = mutate_doc(rng, d)
         cases.append({'doc': d, 'version': rng.choice(['10', '11'])})
+    # every lexical of the pool at every simple element / attribute of the first base document (a sweep, not a sample:
+    # what a value triggers depends on the type of the place it is put in)
+    d0 = BASE_DOCS[0]
+    spots = [m for m in re.finditer(r'>([^<>]+)<', d0)] + [m for m in re.finditer(r'="([^"]*)"', d0) if not d0[:m.start()].endswith('xmlns:t')]
+    for k, m in enumerate(spots):
+        for j, v in enumerate(LEX_POOL):
+            v = v.replace('&#0;', 'x').replace('\ud7ff', 'y').replace('&', '&amp;').replace('<', '&lt;').replace('"', '&quot;')
+            cases.append({'doc': d0[:m.start(1)] + v + d0[m.end(1):], 'version': '11' if (k + j) % 4 < 2 else '10'})
     # truncated and bit-flipped byte streams
     raw = BASE_DOCS[0].encode('utf-8')
     cuts = range(0, len(raw), 7 if q else 1)
